@@ -1,22 +1,34 @@
 (* C02 — Dispatch order is preserved. Statements only; proofs in ChannelProofs.v, WorldQueue.v.
-   C02_partial: proved here is the queue discipline for every policy and every schedule (what
-   the reducer takes is an in-order subsequence of what entered the queue; a send appends at the
-   tail, the reducer takes the head). That every dispatch's enqueue lies between its invocation
-   and its return - which turns program order and real-time order of calls into enqueue order -
-   holds in the model because the enqueue and the return are emitted by the same step; that
-   step-level fact is checked by the lockstep correspondence, not yet stated as a theorem over
-   histories. *)
-From RS Require Import Base Channel ChannelProofs Pipeline Script World Hist WorldProofs WorldInv WorldQueue.
+   Proved, for every policy, program and schedule: (1) what the reducer takes is an in-order
+   subsequence of what entered the queue (a send appends at the tail, the reducer takes the head);
+   (2) in every reachable history every enqueue of an action lies between the invocation and the
+   return of a dispatch of that action: the return is the very next event and an invocation is
+   older. Hence, if dispatch d1 returned before dispatch d2 was invoked (on any threads, through
+   any entry point, effect workers and thunks included), d1's enqueue - directly below its return -
+   is older than d2's invocation, which is older than d2's enqueue; by (1) d1 is taken before d2
+   whenever both survive. Program order on one thread is the special case. *)
+From RS Require Import Base Channel ChannelProofs Pipeline Script World Hist WorldProofs WorldInv WorldQueue WorldStop WorldMetrics WorldOrder.
 
 Section C02.
 Context {State : Type}.
 Variable cfg : wconfig (State := State).
 
-Theorem C02_fifo_partial : forall reducers mws progs w, reachable cfg reducers mws progs w ->
+Theorem C02_fifo : forall reducers mws progs w, reachable cfg reducers mws progs w ->
   subseq (deqs (w_hist w)) (enqs (w_hist w)).
 Proof.
   intros reducers mws progs w R. apply (taken_in_enqueue_order cfg).
   eapply reachable_queue; eauto.
+Qed.
+
+(* the enqueue of a dispatch lies between its invocation and its return *)
+Theorem C02_enqueue_between_invoke_and_return : forall reducers mws progs w l1 a l3,
+  reachable cfg reducers mws progs w -> w_hist w = l1 ++ EEnq a :: l3 ->
+  (exists l1' t e r, l1 = l1' ++ [ERet t (CDispatch e a) r]) /\
+  existsb (is_inv_of a) l3 = true.
+Proof.
+  intros reducers mws progs w l1 a l3 R E.
+  destruct (reachable_order cfg reducers mws progs w R) as (A & B & _ & _).
+  split; [eapply adj_positions; eauto|eapply enq_inv_positions; eauto].
 Qed.
 
 (* a phase of a send appends the item at the tail, removes the head (DropOldest eviction) or leaves
@@ -34,6 +46,7 @@ Theorem C02_recv_takes_head : forall (c c' : chan aid) o, recv c = Some (Some o,
 Proof. intros c c' o R. apply recv_some in R. tauto. Qed.
 End C02.
 
-Print Assumptions C02_fifo_partial.
+Print Assumptions C02_fifo.
+Print Assumptions C02_enqueue_between_invoke_and_return.
 Print Assumptions C02_queue_discipline.
 Print Assumptions C02_recv_takes_head.
